@@ -3,23 +3,40 @@ from common import LEAN_TB
 CFG = {'lean_modules': ['ObiVerif.Props.C15'],
  'gen': True,
  'thorough_seeds': 8,
- 'rule': 'cases = cw A B (shared 4-mers of two sequences); fc1|fc2 Q refs (obitag / obitag2 FindClosests); ix s refs taxids taxonomy (obirefidx.IndexSequence '
-         'of reference s); id1|id2 Q refs taxids taxonomy (obitag.Identify; obitag2.FindClosests + BestConsensus on a data base indexed by IndexSequence); qg '
-         'A n / qgn A k (q-gram slack of A against every word of length <= n, resp. every word at 1 or 2 single-base edits). Corpus: the failing instances '
-         'found on the unrepaired code (tied shorter reference pruned; scan of a lineage level stopped by a long candidate; 1001 far candidates before a '
-         'closer one, 1003 tied references), empty data base, identical references, three ties at distance 1, sequences shorter than 4 bases, identity exactly '
-         '0.5, distance = length of the reference. Random: a base sequence of 1..100 bases (alphabet acgt or ac), 1..41 references = variants of it or of one '
-         'another (copy, 0..5 substitutions spread 4 apart - fewest shared 4-mers per difference -, bases appended/removed at an end, random edits, prefix + '
-         'long unrelated tail, both, unrelated), query = variant of the base or of a reference; taxonomy = 1..12 nodes rooted at taxid 1 (uniform, chain, '
-         'star, deep), reference taxa at random depth; 1500 (quick) / 5000 per seed (thorough). Exhaustive: qg for every A of length <= 3 against every B of '
-         'length <= 5 (quick); thorough, partitioned over the 8 seeds: every A of length <= 5 against every B of length <= 6 (plus samples of length 6 and 7; '
-         'short words only test the bound at distance 0: the neighbourhood cases qgn on 8..28 bases are the ones where it is tight), and every query over '
-         '{a,c} of length 8..10 against one reference set over {a,c}. non-trivial = distinct well-formed case with a non-empty data base',
+ 'rule': 'cases = id3 Q refs taxids taxonomy heads counts (obitag2.CLIAssignTaxonomy on a data base prepared with the real SetFamily / IndexSequence as '
+         'obireffamidx does, the query pushed through the returned iterator: exact-match table, two-stage Identify; a case in which Identify would dereference '
+         'nil inside a worker goroutine - no cluster head, family of the consensus without sequences - is predicted with the real public pieces and answered '
+         'panic without running the pipeline, counted id3:predicted-panic); sl1|sl2 Q refs taxids taxonomy given-indices (obitag.Identify / obitag2 '
+         'FindClosests+BestConsensus on references carrying GIVEN obitag_ref_index maps: the selection loop with its fallback branches, blank / malformed / '
+         "unknown-taxid entries, keys 999..1002 and 2000, empty map, no index (log.Fatalf), non-termination observed through the loop's own debug line: a "
+         "logrus hook counts 'Problem in identification line' and ends the goroutine after 64 repetitions = outcome hang, no timeout involved); cw A B (shared "
+         '4-mers of two sequences); fc1|fc2 Q refs (obitag / obitag2 FindClosests); ix s refs taxids taxonomy (obirefidx.IndexSequence of reference s); '
+         'id1|id2 Q refs taxids taxonomy (obitag.Identify; obitag2.FindClosests + BestConsensus on a data base indexed by IndexSequence); qg A n / qgn A k '
+         '(q-gram slack of A against every word of length <= n, resp. every word at 1 or 2 single-base edits). Corpus: the failing instances found on the '
+         'unrepaired code (tied shorter reference pruned; scan of a lineage level stopped by a long candidate; 1001 far candidates before a closer one, 1003 '
+         'tied references), empty data base, identical references, three ties at distance 1, sequences shorter than 4 bases, identity exactly 0.5, distance = '
+         'length of the reference. Random: a base sequence of 1..100 bases (alphabet acgt or ac), 1..41 references = variants of it or of one another (copy, '
+         '0..5 substitutions spread 4 apart - fewest shared 4-mers per difference -, bases appended/removed at an end, random edits, prefix + long unrelated '
+         'tail, both, unrelated), query = variant of the base or of a reference; taxonomy = 1..12 nodes rooted at taxid 1 (uniform, chain, star, deep), '
+         'reference taxa at random depth; 1500 (quick) / 5000 per seed (thorough). Exhaustive: qg for every A of length <= 3 against every B of length <= 5 '
+         '(quick); thorough, partitioned over the 8 seeds: every A of length <= 5 against every B of length <= 6 (plus samples of length 6 and 7; short words '
+         'only test the bound at distance 0: the neighbourhood cases qgn on 8..28 bases are the ones where it is tight), and every query over {a,c} of length '
+         '8..10 against one reference set over {a,c}. non-trivial = distinct well-formed case with a non-empty data base. Deepening round 2: ix prints the '
+         "TEXT of the entries (taxid@name@rank, names of taxa divisible by 5 contain '@'); id1/id2 are recomputed by the model on the text of the indices with "
+         'the verbatim loop; corpus + ~8% of the random cases are sl1/sl2; per random case 1/30 each: query shorter than 4 bases, a reference tripled '
+         '(identical references with independent taxa), ambiguity codes in the query or a reference (IUPAC: outside the assumptions of the losslessness '
+         'theorems; model and code are compared only when the real kernels behave as the model reads them; oracle failures ARE reported, with the signature '
+         'suffix .iupac = known finding C15-iupac-prefilter), six one-substitution variants of one reference (ties on the shared count = unstable candidate '
+         'order, and on the distance). Branch statistics: fc:best-at-threshold (a best reference sharing exactly |q|-3-4d 4-mers), fc:best-in-count-tie, '
+         'fc:query<4, sl:hang/panic/fatal/assigned; ~9% of the random acgt cases are id3 (a third with the query equal to a reference; random cluster-head '
+         'flags and counts); statistics id3:exact-hit / family-stage / no-family / identity<0.5',
  'technique': 'Lean 4 theorems on transcriptions of the two pruned search loops over abstract candidate data (lengths, shared 4-mer counts, unbounded LCS '
               'answers), for any number of references and any sorted candidate order; the taxonomy part on top of the C14 lemmas; differential correspondence '
               'of the model (shared 4-mer counts recomputed from the sequences, LCS answers and candidate order taken from the real kernel / sort) with the '
               'real obitag, obitag2, obirefidx code; brute-force oracle (all-pairs unbounded FastLCSScore, naive LCA on the parent table) on the real code; '
-              'the hypotheses of the theorems (q-gram bound, exactness of the bounded kernels) are checked on every pair met',
+              'the hypotheses of the theorems (q-gram bound, exactness of the bounded kernels) are checked on every pair met; (round 2) the selection loop of '
+              'Identify/BestConsensus transcribed statement by statement on the text of the entries and proved equal to a closed form for all indices / '
+              'distances / texts, then to the numeric layer on well-formed indices (refinement)',
  'level_text': 'Proved for all inputs on the Lean model of the REPAIRED loops: findClosests_lossless (any data base size, lengths, counts, distances; '
                'candidates scanned by non-increasing shared 4-mers and satisfying the q-gram bound: FindClosests of obitag and obitag2 returns the least LCS '
                'distance over ALL references and exactly the references at that distance, all ties, each once, = bruteClosests; bruteClosests_spec says what '
@@ -36,32 +53,64 @@ CFG = {'lean_modules': ['ObiVerif.Props.C15'],
                'l-3-4(l-s) shared 4-mers, by induction on the alignment), hence findClosests_lossless_acgt, index_is_lca_acgt, index_lookup_is_lca_acgt, '
                'assigned_is_ancestor_of_every_best_acgt hold WITHOUT the QGramBound hypothesis; slack_nonneg makes the harness qg/qgn check a theorem; '
                'qgram4_false_beyond_uint16: beyond 65538 letters the uint16 counters of Count4Mer wrap and the bound is false (boundary defect shared with C19 '
-               'finding C19-count4-uint16).',
- 'level_note': 'Trusted: Lean kernel; the transcription Model/Tag.lean; Model/Kmer.lean (Count4Mer, C19) and Model/Tax.lean + Lemmas/Tax.lean (C14). The LCS '
-               'kernels are not modelled here (C09): the loops are read with FastLCSScore(.., e) = the unbounded answer when alilength-lcs <= e and -1 '
-               'otherwise, D1Or0 = 0/1 exactly when the unbounded distance is 0/1. The real banded kernel also answers some pairs ABOVE the bound (always with '
-               'alilength-lcs > e; ~60 answers per case in the quick run): both loops ignore such an answer exactly like -1, and the harness checks on every '
-               'pair, for the bounds 2..5 and d-2..d+3, that no answer at or below the bound is ever wrong (hyp.bounded-lcs, hyp.d1or0). The candidate order '
-               '(unstable sort.Sort) is a parameter; the driver rejects (bad-data) an order that is not a permutation sorted by non-increasing count. Floats: '
-               'bestId is kept as the pair (lcs, alilength); identity >= 0.5 is read 2*lcs >= alilength. Tied by correspondence only: bestId / bestmatch, the '
-               'fallback branches of the selection loop of Identify (no recorded distance <= the observed one: upward scan to 1000, else the Go loop spins = '
-               'outcome hang of the model; never reached on an index holding the distance 0), the text format taxid@name@rank of the entries, Common4Mer. Not '
-               'covered: the second (family) stage and the exact-match table of obitag2.Identify, the cluster construction of obireffamidx, geometric '
-               'indexing, the lazy construction of indices shared between workers (concurrency), entries for distances >= the length of the indexed sequence '
-               '(never recorded by the code: d < old with old = lseq).',
+               'finding C19-count4-uint16). ROUND 2 (all for unbounded inputs, no new hypothesis): selection_loop_closed_form (the verbatim loop selLoop on '
+               'ANY text index = selSpec with 3 or more units of fuel; never undecided: the Go loop ends within 3 outer iterations or repeats one for ever), '
+               "entry_text_roundtrip (Split(..,'@')[0] + Atoi of Sprintf('%d@%s@%s') give the taxid back for any name/rank, '@' included), "
+               'selection_wellformed (text layer + Atoi + Taxon = selectEntry on indices of well-formed entries, every distance, fallback and spin included), '
+               'selection_spins_iff (the loop spins IFF no recorded distance is <= max(D,1001); otherwise an entry is selected), selection_never_falls_back '
+               '(under the hypotheses of index_is_lca and a non-empty indexed sequence: the index built by IndexSequence holds the distance 0, hence for EVERY '
+               'observed distance the first downward scan succeeds - upward scan and spin unreachable - and verbatim text loop = numeric closed form = that '
+               'entry), identify_text_refines (Identify run with the verbatim loop on the text of the indices written by IndexSequence = identify of the '
+               'earlier theorems, NO hypothesis: assigned_is_ancestor* transfer to the text-parsing transcription), index_keys_decrease_along_lineage '
+               '(recorded distances strictly decreasing in insertion order = no map entry overwritten, all < length of the sequence, recorded taxa a sub-list '
+               'of the root-first lineage), findClosests_iupac_counterexample (RECORDED VIOLATION: with an ambiguity code - query ktagatak, three identical '
+               'references atagatat at LCS distance 1 - under the answers the real D1Or0 gives on that case the loop returns one of the three tied references '
+               'although the candidates are sorted and satisfy the q-gram bound; findClosestsK d1or0 = findClosests for all inputs), exact_table_is_lca + '
+               "identify2_exact (obitag2 ExactTaxid entry = LCA of the taxa of ALL references holding the query's bytes, first such reference, summed counts; "
+               'Identify returns it), common4mer_sum_min and common4_is_multiset_intersection (Common4Mer = sum over the 256 codes of the min of the two '
+               'counters = multiset intersection of the 4-mer codes below 65539 letters, symmetric).',
+ 'level_note': 'Trusted: Lean kernel; the transcriptions Model/Tag.lean and Model/TagSel.lean; Model/Kmer.lean (Count4Mer, C19) and Model/Tax.lean + '
+               'Lemmas/Tax.lean (C14). The LCS kernels are not modelled here (C09): the loops are read with FastLCSScore(.., e) = the unbounded answer when '
+               'alilength-lcs <= e and -1 otherwise, D1Or0 = 0/1 exactly when the unbounded distance is 0/1 (both checked by the harness on every pair of a c '
+               'g t words: hyp.bounded-lcs, hyp.d1or0; answers of the banded kernel above the bound are ignored by both loops exactly like -1). The candidate '
+               'order (unstable sort.Sort) is a parameter; the driver rejects (bad-data) an order that is not a permutation sorted by non-increasing count. '
+               'Floats: bestId is the pair (lcs, alilength); identity >= 0.5 is read 2*lcs >= alilength. MODEL REPAIRED in round 2 (read from the code, then '
+               'confirmed by the sl cases): after a failed upward scan the second outer iteration scans downwards from d = 1001, so the key 1001 IS found '
+               "(selectEntry had 'hang' there). Still tied by correspondence only: bestId / bestmatch; the map[string]interface{} / map[string]string forms of "
+               'the obitag_ref_index attribute (indices read back from a file) and negative keys are outside the model (keys are naturals). An LCA error '
+               'inside the consensus fold (different roots) is not modelled faithfully (Go continues with a nil taxon; ill-formed taxonomies are outside the '
+               "theorems). The exact-match table (exactEntry) and the two stages of obitag2.Identify (identify2: cluster heads, TaxonAtRank('family'), family "
+               'slice, reffamidx_in) are now TIED by the id3 cases (real CLIAssignTaxonomy through its iterator; no hook needed); theorems on them: '
+               'exact_table_is_lca, identify2_exact only - the ancestor statement for the two-stage branch is checked by the id3 oracle (ancestor-or-self of '
+               'every best reference of the list searched last), not proved; no losslessness is claimed for the two-stage search as a whole (by design it only '
+               'looks at cluster heads, then at one family). Not covered: the cluster construction of obireffamidx, geometric indexing, the lazy construction '
+               'of indices shared between workers (concurrency), entries for distances >= the length of the indexed sequence (never recorded: d < old with old '
+               '= lseq; an observed distance equal to that length - identity exactly 0.5 - reads the largest recorded key). IUPAC ambiguity codes: the full '
+               'losslessness theorems (findClosests_lossless*, index_is_lca*, assigned_is_ancestor_of_every_best*) are proved for inputs over a c g t; with an '
+               'ambiguity code in the query or a reference QGramBound and the kernel readings are false (Encode4mer counts the code as a, D1Or0 compares '
+               'bytes, FastLCSScore matches codes) and the property - which quantifies over every query and data base - is VIOLATED by the code: recorded as '
+               'open known finding C15-iupac-prefilter (harness signatures *.iupac; corpus case fc1 ktagatak atagatat x3; model-side counterexample '
+               'findClosests_iupac_counterexample with D1Or0 as a parameter of findClosestsK). IUPAC cases on which the kernels do not behave as the model '
+               'reads them are not compared with the model (printed as iupac-kernel-hyp ..., bad-op on both sides), their oracle failures are reported.',
  'trusted_base': LEAN_TB + ['extract/ (__single_base_code__ table of Encode4mer)',
- 'obialign.FastLCSScore without bound as the definition of the LCS distance (C09 proves it is the (LCS, shortest alignment) pair)',
- 'naive oracles of the harness (ancestor sets on the parent table, multiset intersection of 4-letter windows)',
- 'IEEE-754 double division of integers below 2^26 is injective on reduced fractions (bestId comparisons read on integer pairs)'],
+                  'obialign.FastLCSScore without bound as the definition of the LCS distance (C09 proves it is the (LCS, shortest alignment) pair)',
+                  'naive oracles of the harness (ancestor sets on the parent table, multiset intersection of 4-letter windows)',
+                  'IEEE-754 double division of integers below 2^26 is injective on reduced fractions (bestId comparisons read on integer pairs)'],
  'modelled': 'pkg/obikmer counting.go (Common4Mer; Count4Mer/Encode4mer from C19), pkg/obitools/obitag/obitag.go (FindClosests, Identify), '
              'pkg/obitools/obitag2/obitag.go (FindClosests, BestConsensus), pkg/obitools/obirefidx/obirefidx.go (IndexSequence; famlilyindexing.go calls the '
              'same function), pkg/obitax/lca.go (TaxNode.LCA, from C14) - as repaired by notes/patches/C15-findclosests-wordmin-best-length, '
-             'C15-obitag2-candidate-cap, C15-indexsequence-break-threshold',
+             'C15-obitag2-candidate-cap, C15-indexsequence-break-threshold; round 2: the selection loop of obitag.Identify / obitag2.BestConsensus verbatim on '
+             "the text of the entries (Model/TagSel.lean: selLoop, selectText, identifyText), fmt.Sprintf('%d@%s@%s') / strings.Split / strconv.Atoi on "
+             'entries, log.Fatalf of BestConsensus on a missing index; obitag2.CLIAssignTaxonomy exact-match table and obitag2.Identify two stages '
+             '(exactEntry, identify2 - tied by id3); findClosestsK: FindClosests with the answers of D1Or0 as a parameter',
  'assumptions': ['QGramBound: a candidate within d differences of the scanned sequence shares at least max(lengths)-3-4d 4-mers with it (hypothesis of '
                  'findClosests_lossless and index_is_lca; true for words over a c g t by the q-gram lemma, not proved here; FALSE with IUPAC ambiguity codes, '
-                 'which Encode4mer counts as a while FastLCSScore matches them: sequences are assumed to be over a c g t)',
+                 'which Encode4mer counts as a while FastLCSScore matches them: sequences are assumed to be over a c g t in the theorems; the violation with '
+                 'ambiguity codes is the open known finding C15-iupac-prefilter)',
                  'the bounded kernels never return a wrong answer at or below their bound (C09: fastLCS_sound + correspondence); answers above the bound are '
                  'harmless',
                  'the candidate list is a permutation of the references sorted by non-increasing shared 4-mer count (what obiutils.IntOrder + Reverse produce)',
                  'well-formed taxonomy rooted at taxid 1 containing the taxon of every reference (obitag discards the others when loading)',
-                 'the indexed sequence is one of the references (distance 0 to itself); lengths below 2^26']}
+                 'the indexed sequence is one of the references (distance 0 to itself); lengths below 2^26',
+                 'selection loop: index keys are natural numbers (IndexSequence records alilength-lcs >= 0), entry texts are ASCII in the harness; a spin of '
+                 'the Go loop is observed as > 64 repetitions of its debug line (the model proves the outcome is decided within 3 iterations)']}
